@@ -693,6 +693,88 @@ def _ntline_probe(spec):
     return lines
 
 
+XMLTREE_MAX_TRIPLES = 16
+_RDFNS = "http://www.w3.org/1999/02/22-rdf-syntax-ns#"
+_XMLNS = "http://www.w3.org/XML/1998/namespace"
+_XKEYS = {"{%s}about" % _RDFNS: "about", "{%s}nodeID" % _RDFNS: "nodeID", "{%s}resource" % _RDFNS: "resource",
+          "{%s}datatype" % _RDFNS: "datatype", "{%s}lang" % _XMLNS: "lang"}
+
+
+def _xcanon(out):
+    """canonical form of an element-tree line (`S ATTRS ( P TAG ATTRS TEXT)*` blocks joined by ` | `): attributes,
+    property elements and blocks sorted — a document's order of elements and attributes carries no meaning"""
+    blocks = []
+    for b in out.split(" | ") if out else []:
+        w = b.split(" ")
+        if w and w[0] == "R":
+            blocks.append("0" + b)       # the root line sorts first
+            continue
+        if not w or w[0] != "S" or (len(w) - 2) % 4 != 0:
+            return "malformed " + out[:80]
+        head = ";".join(sorted(w[1].split(";")))
+        props = sorted(" ".join(["P", w[i + 1], ";".join(sorted(w[i + 2].split(";"))), w[i + 3]])
+                       for i in range(2, len(w), 4))
+        blocks.append(" ".join(["S", head] + props))
+    return " | ".join(sorted(blocks))
+
+
+def _xattrs(el):
+    return ";".join(f"{_XKEYS.get(k, 'other:' + k)}={cps(v)}" for k, v in el.attrib.items()) or "-"
+
+
+def _xmltree_probe(spec, xopts=None):
+    """The document rdflib's `xml` serializer writes, parsed INDEPENDENTLY with xml.etree (expanded names, decoded
+    attribute values and character data), against the element tree of the model (`xmlTree`)."""
+    import xml.etree.ElementTree as ET  # noqa: N817
+    if not spec["triples"] or not gg.xml_expressible(spec)[0]:
+        return []
+    try:
+        g = gg.build(spec)
+        triples = list(g)
+        if len(triples) > XMLTREE_MAX_TRIPLES or any(not isinstance(p_, URIRef) or isinstance(s_, Literal)
+                                                     for s_, p_, _o in triples):
+            return []
+        # the three sources of a base: the base= argument, the graph's own base, the xml_base option
+        kw, barg, sbase = {}, None, None
+        if spec.get("base"):
+            if len(triples) % 2:
+                g.base = sbase = spec["base"]
+            else:
+                kw["base"] = barg = spec["base"]
+        xb = (xopts or {}).get("xml_base")
+        if xb is not None:
+            kw["xml_base"] = xb
+        text = g.serialize(format="xml", **kw)
+        root = ET.fromstring(text.encode("utf-8"))
+    except Exception:
+        return []          # e.g. known finding K3 (ill-formed element names): the round-trip oracle reports those
+
+    def tok(t):
+        if isinstance(t, BNode):
+            return f"b:{cps(str(t))}"
+        if isinstance(t, URIRef):
+            return f"i:{cps(str(t))}"
+        return (f"l:{cps(str(t))}:{cps(str(t.datatype)) if t.datatype is not None else '*'}:"
+                f"{cps(t.language) if t.language is not None else '*'}")
+
+    declared = root.attrib.get("{%s}base" % _XMLNS)
+    blocks = ["R " + (cps(declared) if declared is not None else "*")] if root.tag == "{%s}RDF" % _RDFNS else ["R other"]
+    for el in root:
+        if el.tag != "{%s}Description" % _RDFNS or (el.text or "").strip() or (el.tail or "").strip():
+            blocks.append("S other:" + cps(el.tag))
+            continue
+        w = ["S", _xattrs(el)]
+        for pe in el:
+            ns, _, local = pe.tag[1:].partition("}") if pe.tag.startswith("{") else ("", "", pe.tag)
+            w += ["P", cps(ns + local) + ("+kids" if len(pe) else ""), _xattrs(pe), cps(pe.text or "")]
+        blocks.append(" ".join(w))
+    def oc(v):
+        return cps(v) if v is not None else "*"
+
+    line = f"xmltree {oc(barg)} {oc(sbase)} {oc(xb)} " + " ".join(tok(x) for tr in triples for x in tr)
+    return [(line, _xcanon(" | ".join(blocks)), "xmltree")]
+
+
 NTDOC_MAX_TRIPLES = 14
 
 
@@ -1029,12 +1111,20 @@ def run_impl(case):
     r2 = case.get("round2")
     if r2:
         viol += _round2(g, spec, r2, fmts, stats, case.get("opts") or {})
-    probe = _probe(spec) + _hext_probe(spec) + _ntline_probe(spec) + _ntdoc_probe(spec)
+    probe = _probe(spec) + _hext_probe(spec) + _ntline_probe(spec) + _ntdoc_probe(spec) + _xmltree_probe(spec, (case.get("opts") or {}).get("xml"))
     sprobe = _struct_probe(spec) + _base_probe(spec)
     obs = [exp for _l, exp, _p in probe] + [exp for _l, exp in sprobe]
     stats["probe_base"] = sum(1 for l, _e in sprobe if l.startswith("strip"))
     stats["probe_base_rel"] = sum(1 for l, e in sprobe if l.startswith("strip") and e == "rel")
     stats["probe_hext"] = sum(1 for l, _e, _p in probe if l.startswith("hext"))
+    stats["probe_xmltree"] = sum(1 for l, _e, _p in probe if l.startswith("xmltree"))
+    stats["probe_xmltree_base"] = sum(1 for l, _e, _p in probe if l.startswith("xmltree") and not l.startswith("xmltree * * "))
+    stats["probe_xmltree_xml_base_opt"] = sum(1 for l, _e, _p in probe if l.startswith("xmltree") and l.split(" ")[3] != "*")
+    stats["probe_xmltree_opt_vs_base"] = sum(1 for l, _e, _p in probe if l.startswith("xmltree") and l.split(" ")[3] != "*"
+                                             and l.split(" ")[1:3] != ["*", "*"] and l.split(" ")[3] not in l.split(" ")[1:3])
+    stats["probe_xmltree_cut"] = sum(1 for l, e, _p in probe if l.startswith("xmltree") and not l.startswith("xmltree * * ")
+                                     and any(("about=" in w or "resource=" in w) and "104,116,116,112" not in w and "117,114,110" not in w
+                                             for w in e.split(" ")))
     stats["probe_ntdoc"] = sum(1 for l, _e, _p in probe if l.startswith("ntdoc"))
     stats["probe_ntdoc_bnodes"] = sum(1 for l, _e, _p in probe if l.startswith("ntdoc") and ",95,58," in l)
     stats["probe_ntline"] = sum(1 for l, _e, _p in probe if l.startswith("ntparse"))
@@ -1250,16 +1340,19 @@ _CTX_PREFIXES = [["ex", gg.NAMESPACES[0]], ["a", gg.NAMESPACES[1]], ["b", gg.NAM
 
 def model_lines(case):
     return ([l for l, _e, _p in _probe(case["spec"]) + _hext_probe(case["spec"]) + _ntline_probe(case["spec"])
-             + _ntdoc_probe(case["spec"])]
+             + _ntdoc_probe(case["spec"]) + _xmltree_probe(case["spec"], (case.get("opts") or {}).get("xml"))]
             + [l for l, _e in _struct_probe(case["spec"]) + _base_probe(case["spec"])])
 
 
 def select_model_obs(case, out):
     """The model's own encodings (`ntenc`, `tenc`) are handed to rdflib's readers; the observation is what they read."""
     res = []
-    probe = _probe(case["spec"]) + _hext_probe(case["spec"]) + _ntline_probe(case["spec"]) + _ntdoc_probe(case["spec"])
+    probe = (_probe(case["spec"]) + _hext_probe(case["spec"]) + _ntline_probe(case["spec"]) + _ntdoc_probe(case["spec"])
+             + _xmltree_probe(case["spec"], (case.get("opts") or {}).get("xml")))
     for (_l, _e, post), o in zip(probe, out):
-        if post == "ntdoc" and o != "bad-op":
+        if post == "xmltree" and o != "bad-op":
+            res.append(_xcanon(o))
+        elif post == "ntdoc" and o != "bad-op":
             res.append(_ntdoc_read_back(o, _l))
         elif post == "hext" and o != "bad-op":
             res.append(_hext_read_back(o))
